@@ -19,9 +19,14 @@ def canon (x : Q Rat) : Rat := x.v * factorQ L.radFactor x.u
 
 def cmpQ (a b : Rat) : Ordering := if a = b then .eq else if a < b then .lt else .gt
 
+theorem neq_rat (q : MathQuirks) (a b : Rat) : @neq Rat (ratOps L) q a b = decide (a = b) := by
+  unfold neq
+  simp only [MOps.feq, MOps.isInf, MOps.lt]
+  by_cases h1 : a = b <;> simp [h1]
+
 theorem ncmp_rat (q : MathQuirks) (a b : Rat) : @ncmp Rat (ratOps L) q a b = some (cmpQ a b) := by
   unfold ncmp cmpQ
-  simp only [MOps.feq, MOps.isInf, MOps.lt]
+  simp only [neq_rat, MOps.lt]
   by_cases h1 : a = b
   · simp [h1]
   · by_cases h2 : a < b
@@ -51,12 +56,29 @@ theorem cmp2_canon (hρ : 0 < L.radFactor) (q : MathQuirks) (a b : Q Rat)
   · simp only [hu, if_true, ncmp_rat]
     rw [cmpQ_scale a.v b.v _ hFb]
   · have hu' : b.u ≠ a.u := fun h => hu h.symm
-    simp only [hu, if_false, ha, hb, or_self, asUnit, unitScale, hu', hd.symm, if_true, Option.map_some,
-      ncmp_rat]
-    rw [cmpQ_scale a.v _ _ hFa]
-    congr 2
-    simp only [MOps.mul, MOps.div, MOps.factor]
-    field_simp
+    have hFa' : factorQ L.radFactor a.u ≠ 0 := ne_of_gt hFa
+    have hFb' : factorQ L.radFactor b.u ≠ 0 := ne_of_gt hFb
+    simp only [hu, if_false, ha, hb, or_self, asUnit, unitScale, hu', hd, eq_self, if_true, Option.map_some,
+      ncmp_rat, neq_rat]
+    -- the two-way test cannot change an exact comparison
+    have key : cmpQ a.v (MOps.mul (self := ratOps L) b.v
+        (MOps.div (self := ratOps L) (MOps.factor (self := ratOps L) b.u) (MOps.factor (self := ratOps L) a.u)))
+        = cmpQ (a.v * factorQ L.radFactor a.u) (b.v * factorQ L.radFactor b.u) := by
+      rw [cmpQ_scale a.v _ _ hFa]
+      congr 1
+      simp only [MOps.mul, MOps.div, MOps.factor]
+      field_simp
+    rw [key]
+    by_cases he : a.v * factorQ L.radFactor a.u = b.v * factorQ L.radFactor b.u
+    · simp [cmpQ, he]
+    · have hne : ¬ (MOps.mul (self := ratOps L) a.v
+          (MOps.div (self := ratOps L) (MOps.factor (self := ratOps L) a.u) (MOps.factor (self := ratOps L) b.u)) = b.v) := by
+        simp only [MOps.mul, MOps.div, MOps.factor]
+        intro h
+        apply he
+        rw [← h]
+        field_simp
+      simp [hne]
 
 end MathFn
 
